@@ -313,5 +313,7 @@ def run(ctx):
     # ---- B3: free-running
     free_engine(ctx, "TestOrders", st)
     free_engine(ctx, "TestStress", st, env={"VERIF_SESSIONS": 60 if q else 400}, timeout=840)
+    # a peer that answers after the header and reads the rest later, requests taken in pieces: what reaches the peer is what was issued
+    free_engine(ctx, "TestEarlyReply", st, env={"VERIF_SESSIONS": 40 if q else 400}, timeout=600)
     return finish(ctx, st, "tour transitions covered on the real client + distinct random schedules + free-running sessions; "
                            "every one judged by the external own-payload / distinct-tag oracle and (gated ones) validated by TLC")
